@@ -690,6 +690,39 @@ def fam_crash_continit(rnd, n):
     return res
 
 
+def fam_crash_planpost(rnd, n):
+    """Every crash point of plans with SLOW plan-level post-checks that fail (two thirds) or pass, with and without plan
+    deferred checks behind them: the crash lands inside the post-checks; the process that resumes the plan owes them."""
+    res = []
+    for i in range(n):
+        pg = {"post": rnd.choice([1, 2])}
+        if i % 2 == 1:
+            pg["deferred"] = 1
+        sh = shape([blk([1], 1, 0, g=rnd.choice([{}, {"post": 1}]))] + ([blk([1])] if rnd.random() < 0.4 else []), pg=pg)
+        out = {"p.post.a1": ["perm"]} if i % 3 != 2 else {}
+        lat = {"p.post.a1": [3000], "p.post.a2": [1500]}
+        res.append(scn(sh, "free", out, lat=lat, crash="all", crashmax=40, fn=True, tag="crash-planpost", latmax=100, waitms=6000))
+    return res
+
+
+def fam_two_failures(rnd, n):
+    """Two stages of one plan fail: continuous checks (at run 2-4, while a slow sequence executes) and the deferred
+    checks, or post-checks and deferred checks. A continuous-check failure is reported as such at plan level."""
+    res = []
+    for i in range(n):
+        first = rnd.choice(["cont", "cont", "post"])
+        pg = {first: 1, "deferred": 1}
+        sh = shape([blk([1, 1], 1, 0)], pg=pg)
+        out = {"p.deferred.a1": ["perm"]}
+        if first == "cont":
+            out["p.cont.a1"] = ["ok"] * rnd.choice([1, 2, 3]) + ["perm"]
+        else:
+            out["p.post.a1"] = ["perm"]
+        lat = {a: [rnd.choice([2500, 4000])] for a in seq_actions(sh)}
+        res.append(scn(sh, "free", out, lat=lat, tag="two-failures", contdelay=rnd.choice([200, 400]), latmax=100, waitms=6000))
+    return res
+
+
 def fam_crash_deferred(rnd, n):
     """Crash points around deferred checks that pass or fail, at plan and block level; the answer of a check may
     change across the restart (a deferred group that has run is not run again)."""
